@@ -103,7 +103,7 @@ func (eng *RedisEmu) RequestTermination() {
 
 	// existing connections end with the emulator: WaitForTermination waits for them
 	eng.stopping = true
-	for cc := range eng.conns {
+	for _, cc := range simKeys(eng.conns, func(a, b *clientCxn) bool { return simOrdinal(a) < simOrdinal(b) }) {
 		cc.RequestClose()
 	}
 }
@@ -201,17 +201,40 @@ func (eng *RedisEmu) periodicSave() {
 
 			timer := time.NewTicker(time.Second)
 			for {
-				select {
-				case <-eng.l.Done():
+				// cancellation and a tick may both be pending after a save; a
+				// simulator decides which is seen first (Go picks at random)
+				canceled, ticked := false, false
+				simYield("saver.before-select")
+				switch simSelectFirst("saver.select", 2) {
+				case 0:
+					select {
+					case <-eng.l.Done():
+						canceled = true
+					default:
+					}
+				case 1:
+					select {
+					case <-timer.C:
+						ticked = true
+					default:
+					}
+				}
+				if !canceled && !ticked {
+					select {
+					case <-eng.l.Done():
+						canceled = true
+					case <-timer.C:
+					}
+				}
+				if canceled {
 					simYield("saver.woke")
 					eng.l.Debug("saver loop canceled")
 					timer.Stop()
 					eng.dss.save(eng.l)
 					return
-				case <-timer.C:
-					simYield("saver.woke")
-					eng.dss.save(eng.l)
 				}
+				simYield("saver.woke")
+				eng.dss.save(eng.l)
 			}
 		}()
 	}
